@@ -359,3 +359,220 @@ Lemma all_ok_canonical {T} {DT : IsNone T XR} (xs : list T) : canonical idX xs -
 Proof. intros H v Hv Hn. exact (H v Hv Hn). Qed.
 Lemma all_ok_int {T} {DT : IsNone T Z} (xs : list T) : all_ok okZ xs.
 Proof. intros v _ _. exact I. Qed.
+
+(* ---- extrema and arg-extrema, restated over the reals (f64 series, NaN null) ---------------------------- *)
+Lemma vals_float (xs : list XR) : vals (DT := IsNoneXR) xs = map Some (valid xs).
+Proof.
+  pose proof (vals_rvals (canonical_float xs)) as H. rewrite map_id, rvals_float in H. exact H.
+Qed.
+Lemma le_real (r x : R) : le (NA := NumXR) (Some r) (Some x) <-> r <= x.
+Proof.
+  unfold le. cbn [nltb NumXR xltb]. destruct (Rlt_dec x r); split; intros; try discriminate; try reflexivity; lra.
+Qed.
+Lemma ge_real (r x : R) : le (NA := NumFlip NumXR) (Some r) (Some x) <-> x <= r.
+Proof.
+  unfold le. cbn [nltb NumFlip NumXR xltb]. destruct (Rlt_dec r x); split; intros; try discriminate; try reflexivity; lra.
+Qed.
+
+Theorem vmin_float (xs : list XR) :
+  match vmin (DT := IsNoneXR) xs with
+  | None => valid xs = []
+  | Some m => exists r, m = Some r /\ In r (valid xs) /\ forall x, In x (valid xs) -> r <= x
+  end.
+Proof.
+  pose proof (vmin_spec xlt_irrefl xlt_trans xlt_total (all_ok_canonical (canonical_float xs))) as H.
+  rewrite vals_float in H. destruct (vmin xs) as [m|].
+  - destruct H as [Hin Hall]. apply in_map_iff in Hin. destruct Hin as (r & <- & Hr). exists r.
+    split; [reflexivity|]. split; [exact Hr|].
+    intros x Hx. apply le_real, Hall, in_map, Hx.
+  - destruct (valid xs); [reflexivity|discriminate].
+Qed.
+Theorem vmax_float (xs : list XR) :
+  match vmax (DT := IsNoneXR) xs with
+  | None => valid xs = []
+  | Some m => exists r, m = Some r /\ In r (valid xs) /\ forall x, In x (valid xs) -> x <= r
+  end.
+Proof.
+  rewrite vmax_flip.
+  pose proof (vmin_spec (NA := NumFlip NumXR) xgt_irrefl xgt_trans xgt_total
+                (all_ok_canonical (canonical_float xs))) as H.
+  rewrite vals_float in H. destruct (vmin xs) as [m|].
+  - destruct H as [Hin Hall]. apply in_map_iff in Hin. destruct Hin as (r & <- & Hr). exists r.
+    split; [reflexivity|]. split; [exact Hr|].
+    intros x Hx. apply ge_real, Hall, in_map, Hx.
+  - destruct (valid xs); [reflexivity|discriminate].
+Qed.
+
+Theorem vargmin_float (xs : list XR) :
+  match vargmin (DT := IsNoneXR) xs with
+  | None => valid xs = []
+  | Some i => exists r, nth_error xs i = Some (Some r) /\
+      (forall j x, nth_error xs j = Some (Some x) -> r <= x) /\
+      (forall j x, (j < i)%nat -> nth_error xs j = Some (Some x) -> r < x)
+  end.
+Proof.
+  pose proof (vargmin_spec xlt_irrefl xlt_trans xlt_total (all_ok_canonical (canonical_float xs))) as H.
+  destruct (vargmin xs) as [i|].
+  - destruct H as (v & Hv & Hn & Hall & Hbefore). destruct v as [r|]; [|discriminate Hn]. exists r.
+    split; [exact Hv|]. split.
+    + intros j x Hj. apply le_real. exact (Hall j (Some x) Hj eq_refl).
+    + intros j x Hlt Hj. pose proof (Hbefore j (Some x) Hlt Hj eq_refl) as L.
+      cbn [unwrap IsNoneXR IsNone_float nltb NumXR xltb] in L. destruct (Rlt_dec r x); [assumption|discriminate].
+  - rewrite vals_float in H. destruct (valid xs); [reflexivity|discriminate].
+Qed.
+Theorem vargmax_float (xs : list XR) :
+  match vargmax (DT := IsNoneXR) xs with
+  | None => valid xs = []
+  | Some i => exists r, nth_error xs i = Some (Some r) /\
+      (forall j x, nth_error xs j = Some (Some x) -> x <= r) /\
+      (forall j x, (j < i)%nat -> nth_error xs j = Some (Some x) -> x < r)
+  end.
+Proof.
+  rewrite vargmax_flip.
+  pose proof (vargmin_spec (NA := NumFlip NumXR) xgt_irrefl xgt_trans xgt_total
+                (all_ok_canonical (canonical_float xs))) as H.
+  destruct (vargmin xs) as [i|].
+  - destruct H as (v & Hv & Hn & Hall & Hbefore). destruct v as [r|]; [|discriminate Hn]. exists r.
+    split; [exact Hv|]. split.
+    + intros j x Hj. apply ge_real. exact (Hall j (Some x) Hj eq_refl).
+    + intros j x Hlt Hj. pose proof (Hbefore j (Some x) Hlt Hj eq_refl) as L.
+      cbn [unwrap IsNoneXR IsNone_float nltb NumFlip NumXR xltb] in L. destruct (Rlt_dec x r); [assumption|discriminate].
+  - rewrite vals_float in H. destruct (valid xs); [reflexivity|discriminate].
+Qed.
+
+(* ---- the same over the integers, any null dictionary (i32 / i64 never null, Option<i32>) ------------------ *)
+Section IntOrder.
+  Context {T : Type} {DT : IsNone T Z}.
+  Local Open Scope Z_scope.
+
+  Theorem vmin_int (xs : list T) :
+    match vmin (NA := AggNumZ) xs with
+    | None => vals xs = []
+    | Some m => In m (vals xs) /\ forall x, In x (vals xs) -> m <= x
+    end.
+  Proof.
+    pose proof (vmin_spec (NA := AggNumZ) zlt_irrefl zlt_trans zlt_total (all_ok_int xs)) as H.
+    destruct (vmin xs) as [m|]; [|exact H]. destruct H as [Hin Hall]. split; [exact Hin|].
+    intros x Hx. specialize (Hall x Hx). unfold le in Hall. cbn [nltb AggNumZ] in Hall.
+    apply Z.ltb_ge in Hall. exact Hall.
+  Qed.
+  Theorem vmax_int (xs : list T) :
+    match vmax (NA := AggNumZ) xs with
+    | None => vals xs = []
+    | Some m => In m (vals xs) /\ forall x, In x (vals xs) -> x <= m
+    end.
+  Proof.
+    rewrite vmax_flip.
+    pose proof (vmin_spec (NA := NumFlip AggNumZ) zgt_irrefl zgt_trans zgt_total (all_ok_int xs)) as H.
+    destruct (vmin xs) as [m|]; [|exact H]. destruct H as [Hin Hall]. split; [exact Hin|].
+    intros x Hx. specialize (Hall x Hx). unfold le in Hall. cbn [nltb NumFlip AggNumZ] in Hall.
+    apply Z.ltb_ge in Hall. exact Hall.
+  Qed.
+  Theorem vargmin_int (xs : list T) :
+    match vargmin (NA := AggNumZ) xs with
+    | None => vals xs = []
+    | Some i => exists v, nth_error xs i = Some v /\ not_none v = true /\
+        (forall j w, nth_error xs j = Some w -> not_none w = true -> unwrap v <= unwrap w) /\
+        (forall j w, (j < i)%nat -> nth_error xs j = Some w -> not_none w = true -> unwrap v < unwrap w)
+    end.
+  Proof.
+    pose proof (vargmin_spec (NA := AggNumZ) zlt_irrefl zlt_trans zlt_total (all_ok_int xs)) as H.
+    destruct (vargmin xs) as [i|]; [|exact H].
+    destruct H as (v & Hv & Hn & Hall & Hbefore). exists v. split; [exact Hv|]. split; [exact Hn|]. split.
+    - intros j w Hj Hw. specialize (Hall j w Hj Hw). unfold le in Hall. cbn [nltb AggNumZ] in Hall.
+      apply Z.ltb_ge in Hall. exact Hall.
+    - intros j w Hlt Hj Hw. specialize (Hbefore j w Hlt Hj Hw). cbn [nltb AggNumZ] in Hbefore.
+      apply Z.ltb_lt in Hbefore. exact Hbefore.
+  Qed.
+  Theorem vargmax_int (xs : list T) :
+    match vargmax (NA := AggNumZ) xs with
+    | None => vals xs = []
+    | Some i => exists v, nth_error xs i = Some v /\ not_none v = true /\
+        (forall j w, nth_error xs j = Some w -> not_none w = true -> unwrap w <= unwrap v) /\
+        (forall j w, (j < i)%nat -> nth_error xs j = Some w -> not_none w = true -> unwrap w < unwrap v)
+    end.
+  Proof.
+    rewrite vargmax_flip.
+    pose proof (vargmin_spec (NA := NumFlip AggNumZ) zgt_irrefl zgt_trans zgt_total (all_ok_int xs)) as H.
+    destruct (vargmin xs) as [i|]; [|exact H].
+    destruct H as (v & Hv & Hn & Hall & Hbefore). exists v. split; [exact Hv|]. split; [exact Hn|]. split.
+    - intros j w Hj Hw. specialize (Hall j w Hj Hw). unfold le in Hall. cbn [nltb NumFlip AggNumZ] in Hall.
+      apply Z.ltb_ge in Hall. exact Hall.
+    - intros j w Hlt Hj Hw. specialize (Hbefore j w Hlt Hj Hw). cbn [nltb NumFlip AggNumZ] in Hbefore.
+      apply Z.ltb_lt in Hbefore. exact Hbefore.
+  Qed.
+End IntOrder.
+
+(* permutation invariance of the extrema *)
+Theorem vmin_perm_float (xs ys : list XR) :
+  Permutation xs ys -> vmin (DT := IsNoneXR) xs = vmin (DT := IsNoneXR) ys.
+Proof. intros HP. exact (vmin_perm xlt_irrefl xlt_trans xlt_total (all_ok_canonical (canonical_float xs)) HP). Qed.
+Theorem vmax_perm_float (xs ys : list XR) :
+  Permutation xs ys -> vmax (DT := IsNoneXR) xs = vmax (DT := IsNoneXR) ys.
+Proof.
+  intros HP. rewrite !vmax_flip.
+  exact (vmin_perm (NA := NumFlip NumXR) xgt_irrefl xgt_trans xgt_total (all_ok_canonical (canonical_float xs)) HP).
+Qed.
+Theorem vmin_perm_int {T} {DT : IsNone T Z} (xs ys : list T) :
+  Permutation xs ys -> vmin (NA := AggNumZ) xs = vmin (NA := AggNumZ) ys.
+Proof. intros HP. exact (vmin_perm (NA := AggNumZ) zlt_irrefl zlt_trans zlt_total (all_ok_int xs) HP). Qed.
+Theorem vmax_perm_int {T} {DT : IsNone T Z} (xs ys : list T) :
+  Permutation xs ys -> vmax (NA := AggNumZ) xs = vmax (NA := AggNumZ) ys.
+Proof.
+  intros HP. rewrite !vmax_flip.
+  exact (vmin_perm (NA := NumFlip AggNumZ) zgt_irrefl zgt_trans zgt_total (all_ok_int xs) HP).
+Qed.
+
+(* ---- the plain family (AggBasic) on null-free input ---------------------------------------------------- *)
+(* sums and means of a list of numbers *)
+Theorem plain_sum_float (V : list R) :
+  sum (map Some V) = if (length V =? 0)%nat then None else Some (Some (sumR V)).
+Proof.
+  unfold sum. rewrite n_sum_spec, map_length. cbn [snd].
+  change (@nzero XR NumXR) with (Some 0). rewrite fold_add_some, Rplus_0_l. destruct (length V); reflexivity.
+Qed.
+Theorem plain_mean_float (V : list R) :
+  mean idX (map Some V) = if (length V =? 0)%nat then None else Some (Some (meanR V)).
+Proof.
+  unfold mean. rewrite n_sum_spec, map_length. cbn [fst snd].
+  change (@nzero XR NumXR) with (Some 0). rewrite fold_add_some, Rplus_0_l.
+  destruct (length V) as [|k] eqn:E; [reflexivity|]. cbn [Nat.leb Nat.eqb].
+  rewrite xofnat, xdiv_some by (apply not_0_INR; discriminate). unfold meanR, nR. rewrite E. reflexivity.
+Qed.
+Theorem plain_sum_int (l : list Z) :
+  sum (NA := AggNumZ) l = if (length l =? 0)%nat then None else Some (sumZ l).
+Proof.
+  unfold sum. rewrite n_sum_spec. cbn [snd]. rewrite fold_left_Zadd. cbn [nzero AggNumZ].
+  destruct (length l); reflexivity.
+Qed.
+Theorem plain_mean_int (l : list Z) :
+  mean (NA := AggNumZ) zR l = if (length l =? 0)%nat then None else Some (Some (meanR (map IZR l))).
+Proof.
+  unfold mean. rewrite n_sum_spec. cbn [fst snd]. rewrite fold_left_Zadd. cbn [nzero AggNumZ].
+  destruct (length l) as [|k] eqn:E; [reflexivity|]. cbn [Nat.leb Nat.eqb]. unfold zR.
+  rewrite xofnat, xdiv_some by (apply not_0_INR; discriminate).
+  unfold meanR, nR. rewrite map_length, E, sumR_IZR. reflexivity.
+Qed.
+
+(* AggBasic::argmin on a null-free real series: index of the first minimum *)
+Theorem plain_argmin_float (V : list R) :
+  match argmin (map Some V) with
+  | None => V = []
+  | Some i => exists r, nth_error V i = Some r /\
+      (forall j x, nth_error V j = Some x -> r <= x) /\
+      (forall j x, (j < i)%nat -> nth_error V j = Some x -> r < x)
+  end.
+Proof.
+  assert (Hok : Forall okX (map Some V)).
+  { apply Forall_forall. intros a Ha. apply in_map_iff in Ha. destruct Ha as (r & <- & _). discriminate. }
+  pose proof (plain_argmin_spec xlt_irrefl xlt_trans xlt_total Hok) as H.
+  destruct (argmin (map Some V)) as [i|].
+  - destruct H as (m & Hm & Hall & Hbefore). rewrite nth_error_map in Hm.
+    destruct (nth_error V i) as [r|] eqn:Er; [|discriminate]. cbn in Hm. injection Hm as <-.
+    exists r. split; [reflexivity|]. split.
+    + intros j x Hj. apply le_real. apply (Hall j). rewrite nth_error_map, Hj. reflexivity.
+    + intros j x Hlt Hj. assert (L : nltb (Some r) (Some x) = true).
+      { apply (Hbefore j); [exact Hlt|]. rewrite nth_error_map, Hj. reflexivity. }
+      cbn [nltb NumXR xltb] in L. destruct (Rlt_dec r x); [assumption|discriminate].
+  - destruct V; [reflexivity|discriminate].
+Qed.
